@@ -10,6 +10,7 @@ pub mod c10;
 pub mod c13;
 pub mod c14;
 pub mod c15;
+pub mod c16;
 pub mod c17;
 pub mod c19;
 pub mod c19_ffi;
@@ -28,6 +29,7 @@ pub fn dispatch(env: &Env) -> i32 {
         "C13" => c13::run(env),
         "C14" => c14::run(env),
         "C15" => c15::run(env),
+        "C16" => c16::run(env),
         "C17" => c17::run(env),
         "C18" => c18::run(env),
         "C19" => c19::run(env),
